@@ -298,3 +298,34 @@ Proof.
   - intros H d (c & Hc & <-). specialize (H c Hc). lia.
   - intros H c Hc. specialize (H (fst c) (ex_intro _ c (conj Hc eq_refl))). lia.
 Qed.
+
+(** * Delegation (bank DelegateCoins): funds on hold cannot be delegated, coins still vesting can. *)
+Lemma delegate_one_iff a d v s :
+  (exists s', delegate a [(d, v)] s = Some s') <-> 0 < v /\ v <= bal_of s a d - hold_of s a d.
+Proof.
+  unfold delegate. cbn [coins_pos forallb map fst snd nodupb existsb negb andb delegate_coins].
+  destruct (Z.ltb_spec 0 v) as [Hv|Hv]; cbn [andb negb].
+  - destruct (Z.ltb_spec (bal_of s a d - hold_of s a d) v) as [Hb|Hb].
+    + split; [intros (s' & H); discriminate | intros (_ & H); lia].
+    + split; [intros _; split; lia | intros _; eexists; reflexivity].
+  - split; [intros (s' & H); discriminate | intros (H & _); lia].
+Qed.
+
+(** What an accepted delegation does: the balance goes down by the amount, the vesting lock by the
+    amount but not below zero, the hold and every record stay. *)
+Lemma delegate_one_effect a d v s s' :
+  delegate a [(d, v)] s = Some s' ->
+  bal_of s' a d = bal_of s a d - v /\ vlock_of s' a d = Z.max 0 (vlock_of s a d - v) /\
+  holds s' = holds s /\ orders s' = orders s /\ commits s' = commits s /\ pays s' = pays s.
+Proof.
+  unfold delegate. cbn [coins_pos forallb map fst snd nodupb existsb negb andb delegate_coins].
+  destruct (0 <? v); cbn [andb negb]; [|discriminate].
+  destruct (bal_of s a d - hold_of s a d <? v); [discriminate|].
+  intros H. injection H as <-. cbn [holds orders commits pays set_vest set_bals].
+  repeat split.
+  - unfold bal_of. cbn [bals set_vest set_bals]. rewrite zget_aset.
+    destruct (k2_eqb_spec (a, d) (a, d)); [reflexivity | congruence].
+  - unfold vlock_of at 1. cbn [vest set_vest]. rewrite zget_aset.
+    destruct (k2_eqb_spec (a, d) (a, d)); [|congruence].
+    unfold vlock_of. lia.
+Qed.
